@@ -57,6 +57,14 @@ POSITIONS = [
     ('from_subselect_join', 'SELECT * FROM (SELECT t1.id FROM int1.t1 JOIN {A}.t2 ON t1.id = t2.id) AS s', ['t1', 't2']),
     ('cte_join_body', 'WITH c AS (SELECT t1.id FROM int1.t1 JOIN {A}.t2 ON t1.id = t2.id) SELECT * FROM c', ['t1', 't2']),
     ('union_three', 'SELECT id FROM int1.t1 UNION SELECT id FROM {A}.t2 UNION SELECT id FROM int1.t3', ['t1', 't2', 't3']),
+    # fully qualified column names in DML / DDL positions (the qualifier has to go there too)
+    ('delete_qualified_where', 'DELETE FROM {A}.t2 WHERE {A}.t2.b = 5 AND {A}.t2.id IN (SELECT id FROM int1.t1)', ['t1']),
+    ('update_qualified_where', 'UPDATE {A}.t2 SET b = 1 WHERE {A}.t2.id = 2', []),
+    ('insert_select_qualified_columns', 'INSERT INTO int1.t1 (id, a, x) SELECT {A}.t2.id, {A}.t2.b, {A}.t2.y FROM {A}.t2 WHERE {A}.t2.b = 1', ['t2']),
+    ('select_qualified_everywhere', 'SELECT {A}.t2.id FROM {A}.t2 JOIN int1.t1 ON {A}.t2.id = int1.t1.id WHERE {A}.t2.b = 1 ORDER BY {A}.t2.id', ['t2', 't1']),
+    # a CTE named like a table of the probed integration; that table referenced by its qualified name
+    ('cte_named_like_probed_table', 'WITH t2 AS (SELECT * FROM int1.t1 WHERE a = 1) SELECT * FROM t2 AS o JOIN {A}.t2 AS p ON o.id = p.id', ['t1', 't2']),
+    ('cte_named_like_probed_table_sub', 'WITH t2 AS (SELECT * FROM int1.t1) SELECT * FROM int1.t3 JOIN {A}.t2 ON t3.id = t2.id WHERE t3.id IN (SELECT id FROM t2)', ['t1', 't3', 't2']),
     ('subquery_same_integration_as_probe', 'SELECT * FROM {A}.t2 WHERE id IN (SELECT t1.id FROM int1.t1 JOIN {A}.t2 AS u ON t1.id = u.id)', ['t2', 't1', 't2']),
 ]
 
@@ -191,6 +199,14 @@ class CHECK(Check):
                     ps = [str(p).lower() for p in idn.parts]
                     if len(ps) > 1 and ps[0] in ('int1', 'int2') and 'alias' not in [p for p in path if isinstance(p, str)]:
                         out.append((f'qualifier-not-removed|{pl}', f'{sql!r} [{cat}]: fetch on {f.integration} contains identifier {".".join(idn.parts)}'))
+                        break
+        # the filter of a DELETE is sent to the table's integration as well: no integration qualifier may stay in it
+        for st in steps:
+            if isinstance(st, S.DeleteStep) and st.where is not None:
+                for idn, path in reflect.walk(st.where, want=lambda o: isinstance(o, A.Identifier)):
+                    ps = [str(p).lower() for p in idn.parts]
+                    if len(ps) > 1 and ps[0] in ('int1', 'int2'):
+                        out.append((f'qualifier-not-removed|{pl}', f'{sql!r} [{cat}]: the filter of the delete step still names {".".join(map(str, idn.parts))}: {st.where}'))
                         break
         want = {}
         for t in tabs:
